@@ -224,37 +224,77 @@ end
 @[simp] theorem unIdPack_idPack (k : Nat) : unIdPack (idPack k) = some k := by
   simp [idPack, unIdPack]
 
+mutual
+/-- what the first pass makes of a boxed well-formed value -/
+def pkgOf (s : Side) : PyVal → Pkg
+  | .imm v => .raw (.tuple [.int lblValue, v])
+  | .tup xs => match allImm? xs with
+    | some vs => .raw (.tuple [.int lblValue, .tuple vs])
+    | none => .tup (pkgOfL s xs)
+  | .ref o k => if o = s then .raw (.tuple [.int lblRemoteRef, idPack k]) else .resolved (.ref o k)
+def pkgOfL (s : Side) : List PyVal → List Pkg
+  | [] => []
+  | x :: xs => pkgOf s x :: pkgOfL s xs
+end
+
 set_option maxRecDepth 4000 in
 mutual
-/-- **unbox ∘ box = id.**  A well-formed value boxed at side `s` and unboxed at the other side, whose table holds
-every object of its own that the value mentions, is the value: equal brine value, the same object for a
-reference, member by member for a mixed tuple. -/
-theorem unbox_box (s : Side) (tbl : List Nat) : ∀ x : PyVal, x.good = true → x.valid s tbl = true →
-    unbox s.other tbl (box s x) = .ok x
-  | .imm v, _, _ => by simp [box, unbox]
+/-- the first pass finds every object of the receiver that the value mentions -/
+theorem resolve_box (s : Side) (tbl : List Nat) : ∀ x : PyVal, x.good = true → x.valid s tbl = true →
+    resolveLocalRefs s.other tbl (box s x) = .ok (pkgOf s x)
+  | .imm v, _, _ => by simp [box, resolveLocalRefs, pkgOf]
   | .tup xs, hg, hv => by
     simp only [PyVal.good, Bool.and_eq_true, decide_eq_true_eq, Option.isNone_iff_eq_none] at hg
     obtain ⟨⟨_, hn⟩, hgl⟩ := hg
     simp only [PyVal.valid] at hv
-    simp [box, hn, unbox, unboxL_boxL s tbl xs hgl hv, mkTup]
+    simp [box, hn, resolveLocalRefs, resolveL_boxL s tbl xs hgl hv, pkgOf]
   | .ref o k, _, hv => by
     simp only [PyVal.valid, Bool.or_eq_true, beq_iff_eq] at hv
-    unfold box
+    unfold box pkgOf
     by_cases hos : o = s
-    · subst hos; simp [unbox]
+    · subst hos; simp [resolveLocalRefs]
     · have hc : k ∈ tbl := by
         rcases hv with h | h
         · exact absurd h hos
         · simpa using h
-      simp [hos, unbox, hc, Side.eq_other_of_ne hos]
-theorem unboxL_boxL (s : Side) (tbl : List Nat) : ∀ xs : List PyVal, goodL xs = true → validL s tbl xs = true →
-    unboxL s.other tbl (boxL s xs) = .ok xs
-  | [], _, _ => by simp [boxL, unboxL]
+      simp [hos, resolveLocalRefs, hc, Side.eq_other_of_ne hos]
+theorem resolveL_boxL (s : Side) (tbl : List Nat) : ∀ xs : List PyVal, goodL xs = true → validL s tbl xs = true →
+    resolveLocalRefsL s.other tbl (boxL s xs) = .ok (pkgOfL s xs)
+  | [], _, _ => by simp [boxL, resolveLocalRefsL, pkgOfL]
   | x :: xs, hg, hv => by
     simp only [goodL, Bool.and_eq_true] at hg
     simp only [validL, Bool.and_eq_true] at hv
-    simp [boxL, unboxL, unbox_box s tbl x hg.1 hv.1, unboxL_boxL s tbl xs hg.2 hv.2]
+    simp [boxL, resolveLocalRefsL, pkgOfL, resolve_box s tbl x hg.1 hv.1, resolveL_boxL s tbl xs hg.2 hv.2]
 end
+
+set_option maxRecDepth 4000 in
+mutual
+/-- the second pass rebuilds the value -/
+theorem unboxPkg_pkgOf (s : Side) : ∀ x : PyVal, x.good = true → unboxPkg s.other (pkgOf s x) = .ok x
+  | .imm v, _ => by simp [pkgOf, unboxPkg, unboxRaw]
+  | .tup xs, hg => by
+    simp only [PyVal.good, Bool.and_eq_true, decide_eq_true_eq, Option.isNone_iff_eq_none] at hg
+    obtain ⟨⟨_, hn⟩, hgl⟩ := hg
+    simp [pkgOf, hn, unboxPkg, unboxPkgL_pkgOfL s xs hgl, mkTup]
+  | .ref o k, _ => by
+    unfold pkgOf
+    by_cases hos : o = s
+    · subst hos; simp [unboxPkg, unboxRaw]
+    · simp [hos, unboxPkg]
+theorem unboxPkgL_pkgOfL (s : Side) : ∀ xs : List PyVal, goodL xs = true → unboxPkgL s.other (pkgOfL s xs) = .ok xs
+  | [], _ => by simp [pkgOfL, unboxPkgL]
+  | x :: xs, hg => by
+    simp only [goodL, Bool.and_eq_true] at hg
+    simp [pkgOfL, unboxPkgL, unboxPkg_pkgOf s x hg.1, unboxPkgL_pkgOfL s xs hg.2]
+end
+
+/-- **unbox ∘ box = id.**  A well-formed value boxed at side `s` and unboxed at the other side (first pass: its
+references to the receiver's objects are resolved against the receiver's table, which holds every one of them; second
+pass: values, tuples, proxies) is the value: equal brine value, the same object for a reference, member by member for a
+mixed tuple. -/
+theorem unbox_box (s : Side) (tbl : List Nat) (x : PyVal) (hg : x.good = true) (hv : x.valid s tbl = true) :
+    unbox s.other tbl (box s x) = .ok x := by
+  simp [unbox, resolve_box s tbl x hg hv, unboxPkg_pkgOf s x hg]
 
 /-! ### the wire -/
 
